@@ -65,6 +65,8 @@ CONSTANTS
  Vals <- ValsDef
  Dev = %s
  SS = 1
+ Sems = %s
+ IOs = %s
 INVARIANT NoErr
 INVARIANT Mono
 INVARIANT Agree
@@ -72,14 +74,15 @@ CHECK_DEADLOCK FALSE
 """
 
 
-def run_formulas(name, formulas, maxt=3, maxn=3, vals=(-2, 3), dev=(), workers=8, timeout=7200, expect_violation=False):
+def run_formulas(name, formulas, maxt=3, maxn=3, vals=(-2, 3), dev=(), workers=8, timeout=7200, expect_violation=False,
+                 sems=("standard",), ios=("output",)):
     """exhaustive TLC run of DenseOnFMC: formulas x signals x all per-variable schedules"""
     wd = tlc.workdir(name)
     mod = "MC_" + name
     with open(os.path.join(wd, mod + ".tla"), "w") as f:
         f.write("---- MODULE %s ----\nEXTENDS DenseOnFMC\nFormulasDef == %s\nValsDef == %s\n====\n" % (mod, tlc.tla_set(formulas), tlc.tla(set(vals))))
     with open(os.path.join(wd, mod + ".cfg"), "w") as f:
-        f.write(FCFG % (maxt, maxn, tlc.tla(set(dev))))
+        f.write(FCFG % (maxt, maxn, tlc.tla(set(dev)), tlc.tla(set(sems)), tlc.tla(set(ios))))
     res = tlc.run(wd, mod, workers=workers, timeout=timeout, deadlock=True)
     tlc.ok_or_machinery(res, name)
     if expect_violation and not res["violated"]:
@@ -97,19 +100,22 @@ CONSTANTS
  Vals <- ValsDef
  SS = 1
  T0 = %d
+ Sems = %s
+ IOs = %s
 INVARIANT Denotes
 CHECK_DEADLOCK FALSE
 """
 
 
-def run_offline(name, formulas, maxt=3, maxn=3, vals=(-2, 1, 3), t0=0, workers=12, timeout=7200, expect_violation=False):
+def run_offline(name, formulas, maxt=3, maxn=3, vals=(-2, 1, 3), t0=0, workers=12, timeout=7200, expect_violation=False,
+                sems=("standard",), ios=("output",)):
     """exhaustive TLC run of DenseOffMC: the offline operational model denotes Dense!SigC for formulas x signal pairs"""
     wd = tlc.workdir(name)
     mod = "MC_" + name
     with open(os.path.join(wd, mod + ".tla"), "w") as f:
         f.write("---- MODULE %s ----\nEXTENDS DenseOffMC\nFormulasDef == %s\nValsDef == %s\n====\n" % (mod, tlc.tla_set(formulas), tlc.tla(set(vals))))
     with open(os.path.join(wd, mod + ".cfg"), "w") as f:
-        f.write(OCFG % (maxt, maxn, t0))
+        f.write(OCFG % (maxt, maxn, t0, tlc.tla(set(sems)), tlc.tla(set(ios))))
     res = tlc.run(wd, mod, workers=workers, timeout=timeout, deadlock=True)
     tlc.ok_or_machinery(res, name)
     if expect_violation and not res["violated"]:
